@@ -108,7 +108,7 @@ func genCases(seed int64, n int) []Case {
 			}
 		case cls == 12: // other operations over SSE
 			c.Kind = "sse"
-			c.Op = []string{"query", "defer", "badquery", "suberr", "opreject"}[(i/20)%5]
+			c.Op = []string{"query", "defer", "badquery", "defernull", "suberr", "opreject", "defernull", "defer"}[(i/20)%8]
 			c.KAus = keepAlives[r.Intn(4)]
 			c.K = 1 + r.Intn(6)
 			c.Release = releases[r.Intn(len(releases))]
@@ -340,6 +340,9 @@ func resolvers() *tx.Stub {
 		return &tx.Item{ID: obj.ID + ".s", Name: "n-" + obj.ID + ".s"}, nil
 	}
 	s.ItemResolver.Subs = func(ctx context.Context, obj *tx.Item, n int) ([]*tx.Item, error) {
+		if n < 0 {
+			return nil, fmt.Errorf("no subs for %s", obj.ID)
+		}
 		out := make([]*tx.Item, n)
 		for i := range out {
 			id := fmt.Sprintf("%s.%d", obj.ID, i)
@@ -377,8 +380,21 @@ func resolvers() *tx.Stub {
 			for i := 0; i < st.c.N; i++ {
 				pause(st.c.Timing, r)
 				p := payloadText(st.c.Seed, i, st.c.Sizes[i])
+				ev := &tx.Event{Seq: i, Payload: &p, Meta: map[string]any{"i": i, "s": "a b"}, Extra: []any{i, "x"}}
+				if st.c.CtxEnd > 0 && i >= st.c.CtxEnd {
+					// a resolver that does not watch its context: the event after the server ended the
+					// request is on offer for a while; gqlgen takes it or not, but what it takes it delivers
+					select {
+					case ch <- ev:
+						st.consumed.Add(1)
+						continue
+					case <-time.After(100 * time.Millisecond):
+						st.ctxDone.Store(true)
+						return
+					}
+				}
 				select {
-				case ch <- &tx.Event{Seq: i, Payload: &p, Meta: map[string]any{"i": i, "s": "a b"}, Extra: []any{i, "x"}}:
+				case ch <- ev:
 					st.consumed.Add(1)
 				case <-ctx.Done():
 					st.ctxDone.Store(true)
@@ -509,6 +525,14 @@ func queryFor(c *Case) (q string, gated []string) {
 			return `{ nosuchfield }`, nil
 		case "opreject":
 			return `{ q1 q2 }`, nil
+		case "defernull":
+			// group "a" of every item fails in a non-null field (delivered as data:null with the
+			// error) and arrives first; the gated groups "b" follow it
+			q = fmt.Sprintf(`{ items(n:%d) { id ... @defer(label:"a") { subs(n:-1) { id } } ... @defer(label:"b") { slow(ms:1) } } }`, c.K)
+			for i := 0; i < c.K; i++ {
+				gated = append(gated, fmt.Sprintf("i%d", i))
+			}
+			return q, gated
 		case "defer":
 			q = fmt.Sprintf(`{ items(n:%d) { id ... @defer(label:"d") { slow(ms:1) } } }`, c.K)
 			for i := 0; i < c.K; i++ {
@@ -955,6 +979,33 @@ func checkSSE(c *Case, o *kids.Case, st *state, hr *httpResp, produced []prodRec
 			}
 		}
 		o.Count("sse_events_checked", 1)
+	}
+	if (c.Op == "defer" || c.Op == "defernull") && c.CtxEnd == 0 {
+		// the number of groups is known by construction: the initial payload and one payload per
+		// started group, the last one (and only the last one) saying that nothing follows
+		want := 1 + c.K
+		if c.Op == "defernull" {
+			want = 1 + 2*c.K
+		}
+		if len(nexts) != want {
+			fail(fsig("count"), "lost", fmt.Sprintf("the operation starts %d deferred groups: %d next events expected, %d on the wire", want-1, want, len(nexts)), nil)
+			return
+		}
+		for i, b := range nexts {
+			v, _ := sjson.Parse(b.Data)
+			hn := v.Get("hasNext")
+			if hn == nil || hn.Kind != sjson.Bool || hn.B != (i < len(nexts)-1) {
+				fail(fsig("hasnext"), "hasNext", fmt.Sprintf("next event %d of %d carries hasNext %v", i, len(nexts), hn), nil)
+				return
+			}
+		}
+		o.Count("sse_defer_streams_with_known_group_count", 1)
+	}
+	if c.Op == "sub" && c.CtxEnd != 0 && st.prodExit.Load() && int(st.consumed.Load()) != len(nexts) {
+		// the server ended the request while the client stayed connected: the stream may be shorter,
+		// but every event gqlgen TOOK from the resolver's channel is a payload the operation produced
+		fail(fsig("count"), "lost", fmt.Sprintf("gqlgen took %d events from the resolver's channel, %d next events are on the wire (request context ended by the server after %d)", st.consumed.Load(), len(nexts), c.CtxEnd), nil)
+		return
 	}
 	if c.Op == "sub" && len(nexts) != c.N && c.CtxEnd == 0 {
 		// (when the server itself ends the request early the stream is shorter by design: what was
